@@ -65,20 +65,25 @@ ReplVerdict(e) ==
                   /\ \A k \in (n + 1) .. Len(got) : got[k] = <<>>
                THEN "ok" ELSE "bad"
 
-Verdict(e) == CASE e.ev = "dbg" -> DbgVerdict(e)
-                [] e.ev = "repl" -> ReplVerdict(e)
-                [] e.ev = "cli" -> CliVerdict(e, e.bound)
-                [] OTHER -> "ok"
+\* [v |-> "ok" | "bad" | "skip", log |-> "ok" | "drift" | "none"]
+Verdict(e) == CASE e.ev = "dbg" -> [v |-> DbgVerdict(e), log |-> "none"]
+                [] e.ev = "repl" -> [v |-> ReplVerdict(e), log |-> "none"]
+                [] e.ev = "cli" -> CliJudge(e, e.bound)
+                [] OTHER -> [v |-> "ok", log |-> "none"]
 Expected(e) == CASE e.ev = "dbg" -> DbgRun(<<>>, ProgOf(e.prog), e.script).shown
                  [] e.ev = "repl" -> ReplRun([i \in DOMAIN e.lines |-> ReplLineOf(e.lines[i])]).segs
                  [] OTHER -> "see HyCli!CliVerdict"
 
 Init == l = 1 /\ bad = 0
 Step1 == /\ l <= Len(Rec)
-         /\ LET e == Rec[l]  v == Verdict(e) IN
-            /\ (IF v = "bad" THEN PrintT(<<"MISMATCH", l, ToJson(e), ToJson(Expected(e))>>)
-                ELSE IF v = "skip" THEN PrintT(<<"SKIP", l>>) ELSE TRUE)
-            /\ bad' = IF v = "bad" THEN bad + 1 ELSE bad
+         \* (v bound by \E: TLC evaluates a bound variable once; a LET definition used in several
+         \*  conjuncts of an action is evaluated again in each)
+         /\ LET e == Rec[l] IN \E j \in {Verdict(e)} :
+            /\ (IF j.v = "bad" THEN PrintT(<<"MISMATCH", l, ToJson(e), ToJson(Expected(e))>>)
+                ELSE IF j.v = "skip" THEN PrintT(<<"SKIP", l>>) ELSE TRUE)
+            /\ (IF j.log = "drift" THEN PrintT(<<"LOG-DRIFT", l, ToJson(e.log), e.sub, e.level, e.verbose>>)
+                ELSE IF j.log = "ok" THEN PrintT(<<"LOG-OK", l>>) ELSE TRUE)
+            /\ bad' = IF j.v = "bad" THEN bad + 1 ELSE bad
          /\ l' = l + 1
 Next == Step1
 Spec == Init /\ [][Next]_vars
